@@ -48,6 +48,10 @@ SINGLE = [
 MULTI = [["xy_ab"], ["xy_ab", "xy_ac"], ["xy_ab", "idx_ad"], ["xy_ab", "xy_ac", "xy_bc"], ["xy_ab", "hist"], ["xy_ab_x", "xy_ac"], ["xy_ab_noerr", "xy_ac"], ["xy_ac", "xy_ab_relm"]]
 
 
+# multi-fits with a shared uncertainty source: (member list, (kind, member indices))
+MULTI_SHARED = [(["xy_ab", "xy_ac"], ("y-abs-rho", [0, 1])), (["xy_ab", "idx_ad", "xy_ac"], ("y-cov", [0, 2])), (["xy_ab_x", "xy_ac"], ("x-abs", [0, 1]))]
+
+
 def single_alphabet(w):
     p0, p1 = w.par_names[0], w.par_names[1]
     ops = [("fix", p0), ("fix", p1), ("rel", p0), ("rel", p1), ("con", "simple"), ("con", "matrix-cov"), ("set", "P1"), ("fit",)]
@@ -73,9 +77,10 @@ def multi_alphabet(mw):
     p0 = mw.par_names[0]
     p1 = mw.par_names[1]
     ops = [("m", ("fix", p0)), ("m", ("fix", p1)), ("m", ("rel", p0)), ("m", ("con", "simple")), ("m", ("con", "matrix-cov")), ("m", ("set", "P1")), ("m", ("fit",))]
-    ops.append(("f0", ("con", "simple")))
-    if len(mw.members) > 1 and mw.members[1].ftype in ("xy", "indexed"):
-        ops.append(("f1", ("con", "simple-rel")))
+    if not mw.shared:  # (constraints of members are dropped by multi-fits with shared sources: open finding KF-C11-01)
+        ops.append(("f0", ("con", "simple")))
+        if len(mw.members) > 1 and mw.members[1].ftype in ("xy", "indexed"):
+            ops.append(("f1", ("con", "simple-rel")))
     return ops
 
 
@@ -132,8 +137,11 @@ def check_multi(mw):
     endf = mw.ref_ndf()
     if ndf != endf:
         out.append(("ndf", endf, int(ndf), "wrong-value"))
-    gofs = [gof_ref(w) for w in mw.members]
-    egof = None if any(g is None for g in gofs) else sum(gofs) + mw.ref_constraint_cost()
+    if mw.shared:
+        egof = mw.ref_cost(with_det=False)  # joint chi2 with the shared matrix in all blocks + constraint cost
+    else:
+        gofs = [gof_ref(w) for w in mw.members]
+        egof = None if any(g is None for g in gofs) else sum(gofs) + mw.ref_constraint_cost()
     if (egof is None) != (gof is None) or (egof is not None and abs(gof - egof) > 1e-8 * max(1.0, abs(egof))):
         out.append(("goodness_of_fit", egof, gof, "wrong-value"))
     allchi2 = all(w.ftype in ("xy", "indexed") for w in mw.members)
@@ -175,6 +183,12 @@ def make_single(cfg, v):
     return w
 
 
+def make_shared(names, shared):
+    mw = MultiWorld(names)
+    mw.apply(("shared", shared[0], "sh0", list(shared[1])))
+    return mw
+
+
 def jobs(tier, seed):
     v = seed % 3
     L = 3 if tier == "quick" else 4
@@ -186,11 +200,14 @@ def jobs(tier, seed):
         for i, names in enumerate(MULTI):
             for sh in range(4):
                 specs.append(("multi", i, vv, L, sh, 4))
+        for i in range(len(MULTI_SHARED)):
+            for sh in range(4):
+                specs.append(("multi-shared", i, vv, L, sh, 4))
     return specs
 
 
 def bound(tier, seed):
-    return "all operation sequences of length <= %d over fix/fix-again/release/constraints(n=1,2,3)/set/do_fit on 17 single-fit configurations (4 fit types, 12 cost identifiers) and 8 multi-fits of 1-3 members (operations on multi-fit and members); valuation(s) %s" % (
+    return "all operation sequences of length <= %d over fix/fix-again/release/constraints(n=1,2,3)/set/do_fit on 17 single-fit configurations (4 fit types, 12 cost identifiers) and 8 multi-fits of 1-3 members plus 3 multi-fits with a shared y / matrix / x source (operations on multi-fit and members); valuation(s) %s" % (
         3 if tier == "quick" else 4,
         (seed % 3) if tier == "quick" else "0,1,2",
     )
@@ -204,6 +221,11 @@ def run_job(spec):
         make = lambda: make_single(cfg, v)  # noqa: E731
         seqs = [()] + sequences(single_alphabet, single_valid, make, L)
         checker, tag = check_single, "%s/%s/%s" % (cfg[0], cfg[1], "+".join(cfg[3]))
+    elif kind == "multi-shared":
+        names, shared = MULTI_SHARED[i]
+        make = lambda: make_shared(names, shared)  # noqa: E731
+        seqs = [()] + sequences(multi_alphabet, multi_valid, make, L)
+        checker, tag = check_multi, "multi-shared/%s/%s@%s" % ("+".join(names), shared[0], shared[1])
     else:
         names = MULTI[i]
         make = lambda: MultiWorld(names)  # noqa: E731
@@ -263,6 +285,9 @@ def replay(history):
         if h["kind"] == "single":
             w = make_single(SINGLE[h["index"]], h["v"])
             checker = check_single
+        elif h["kind"] == "multi-shared":
+            w = make_shared(*MULTI_SHARED[h["index"]])
+            checker = check_multi
         else:
             w = MultiWorld(MULTI[h["index"]])
             checker = check_multi
@@ -283,3 +308,4 @@ def triage_key(v):
 def vacuity_guards(tot, tier):
     for k in ("fix", "rel", "con", "fit"):
         yield "operation %s explored on single fits and multi-fits" % k, tot.facts.get("op:single:" + k, 0) > 0 and tot.facts.get("op:multi:" + k, 0) > 0
+    yield "multi-fits with shared sources explored", tot.facts.get("op:multi-shared:fix", 0) > 0
